@@ -275,7 +275,7 @@ def run(chk):
     _component_run(chk)
     from harness import syscheck
     core.extra_props_phase(chk, "C06_system")
-    syscheck.system_phase(chk, "C06", {'plain': 5, 'suspend': 3, 'kill': 1, 'timeout': 1, 'sbatchfail': 1, 'racing_try': 1, 'squeuefail': 2}, n_quick=120, n_thorough=2500, also=())
+    syscheck.system_phase(chk, "C06", {'plain': 5, 'suspend': 3, 'kill': 1, 'timeout': 1, 'sbatchfail': 1, 'racing_try': 1, 'squeuefail': 2, 'write': 2}, n_quick=135, n_thorough=2500, also=())
 
 
 def replay(path):
